@@ -165,8 +165,8 @@ def gen_single_case(rng, refine=None):
             "batch": rng.randrange(1, 5), "refine": refine, "n_nodes": n_nodes, "videos": videos}
 
 
-def gen_topdown_case(rng, refine=None, max_instances=None, counts=(0, 1, 1, 2, 2, 3), max_hw_fn=None):
-    nv = rng.choice([1, 1, 2])
+def gen_topdown_case(rng, refine=None, max_instances=None, counts=(0, 1, 1, 2, 2, 3), max_hw_fn=None, nv=None):
+    nv = rng.choice([1, 1, 2]) if nv is None else nv
     sizes = gen_sizes(rng, nv)
     sc, ms_c, os_c = gen_stage(rng)
     si, ms_i, os_i = gen_stage(rng)
